@@ -823,3 +823,140 @@ def r_rowcount_agree(cx):
            "then builds, and a valid file is rejected" % (consts_, ", ".join(fns))),
           cx.where(sites[0][3]) if sites else "src/grid/mod.rs")
     cx.count("R-ROWCOUNT-AGREE", "count_sites", len(sites))
+
+
+@rule("R-GRID-SIZE-CHECK", ["C15", "C09"])
+def r_grid_size_check(cx):
+    """A BaseGrid that holds its own node values (offset 0) is only built when the vector is at least as long as
+    rows * cols * bands - the interpolation indexes it up to that product. Decided by reachability under a partial
+    assignment: assume the stored offset *value* is 0 and the product exceeds the length of the vector; the block that
+    builds the grid must then be unreachable in BaseGrid::plain. A size test keyed on the *presence* of an offset
+    (`offset.is_none()`) instead of its value is skipped for NTv2 sub-grids, which pass `Some(0)`."""
+    import guards
+    name = "grid::BaseGrid::plain"
+    if not cx.f.has_fn(name):
+        cx.ob("R-GRID-SIZE-CHECK", "anchor", False, "anchor-missing: %s" % name)
+        return
+    f = cx.f.fn(name)
+    ctor = [bb for bb, i, s in f.all_stmts() if s["k"] == "assign" and s["rv"]["k"] == "agg" and s["rv"].get("adt") == "grid::BaseGrid"]
+    assign = {}
+    n_size = 0
+    for b in sorted(f.reachable()):
+        t = f.term(b)
+        if t["k"] != "switch":
+            continue
+        for at in guards.atoms(f, f.operand(t["discr"], f.end_point(b))):
+            at = mir.strip_refs(at)
+            if at[0] != "bin":
+                continue
+            lens = [sd for sd in (at[2], at[3]) if mir.strip_refs(sd)[0] == "call" and isinstance(mir.strip_refs(sd)[1], str)
+                    and mir.strip_refs(sd)[1].rsplit("::", 1)[-1] == "len" and _mentions_mul_free(mir.strip_refs(sd))]
+            prod = [sd for sd in (at[2], at[3]) if mir.strip_refs(sd)[0] == "bin" and mir.strip_refs(sd)[1] == "Mul"]
+            if lens and prod and at[1] in ("Gt", "Ge", "Lt", "Le"):
+                # truth value that means "the product exceeds the length"
+                prod_left = mir.strip_refs(at[2])[0] == "bin"
+                exceeds = (at[1] in ("Gt", "Ge")) == prod_left
+                assign[at] = exceeds
+                n_size += 1
+            # the offset value compared with zero
+            for x, k in ((at[2], at[3]), (at[3], at[2])):
+                if at[1] in ("Eq", "Ne") and mir.strip_refs(k)[0] == "const" and mir.strip_refs(k)[2] == 0:
+                    m = []
+                    mir.walk(x, lambda y: (m.append(1) if y == ("arg", 3) else None) or True)
+                    if m:
+                        assign[at] = (at[1] == "Eq")
+    ok = False
+    if ctor and n_size:
+        reach = guards.reach_under(f, assign)
+        ok = not any(c in reach for c in ctor)
+    cx.ob("R-GRID-SIZE-CHECK", "plain/size", ok,
+          "a grid holding its own values (offset 0) is never built from a vector shorter than rows * cols * bands" if ok else
+          ("anchor-missing: BaseGrid::plain does not compare rows * cols * bands with the length of the vector" if not n_size else
+           "BaseGrid::plain can build a grid with offset 0 whose vector is shorter than rows * cols * bands (the size test does "
+           "not depend on the offset value being 0 - e.g. it is keyed on the offset being absent, and NTv2 sub-grids pass "
+           "Some(0)): a damaged header is accepted and the first query indexes out of bounds"), cx.where(f.d["span"]))
+    cx.count("R-GRID-SIZE-CHECK", "size_tests", n_size)
+
+
+def _mentions_mul_free(t):
+    return True
+
+
+@rule("R-NTV2-OFFSET-ACCUMULATES", ["C15"])
+def r_ntv2_offset_accumulates(cx):
+    """The sub-grid records of an NTv2 file follow each other: record k starts after the overview header, k sub-grid
+    headers and the nodes of *all* earlier sub-grids. In Ntv2Grid::new the offset handed to the sub-grid decoder is
+    therefore built from loop-carried state that accumulates: every value carried around the loop that the offset
+    depends on (other than the loop counter) is updated from its own previous value. A carried `nodes_read` that is
+    overwritten with the size of the last sub-grid alone places the third and later records inside earlier node data."""
+    name = "grid::ntv2::Ntv2Grid::new"
+    f = cx.f.fn(name)
+    n = 0
+    for bb, t in f.calls():
+        c = f.callee(t) or ""
+        if not c.endswith("subgrid::ntv2_subgrid"):
+            continue
+        lp = f.innermost_loop(bb)
+        if lp is None:
+            continue
+        n += 1
+        off = f.arg_terms(bb)[1]
+        carried = set()
+
+        def vis(y):
+            if y[0] == "loopphi" and y[1][0] == lp.header:
+                carried.add(y[1][1])
+            return True
+        mir.walk(off, vis)
+        bad = []
+        for l in sorted(carried):
+            ty = str(f.local_ty(l))
+            if "Range" in ty or "Iter" in ty or "iter" in ty:
+                continue
+            d = f.phi_def(("loopphi", (lp.header, l)))
+            if d is None or d[0] != "phi":
+                continue
+            preds = f.header_preds(lp.header)
+            latch_ops = [o for p, o in zip(preds, d[2]) if p in lp.body]
+            self_ref = all(_additive_self(o, lp.header, l) for o in latch_ops)
+            if not self_ref:
+                bad.append(f.lname(l) or str(l))
+        ok = bool(carried) and not bad
+        cx.ob("R-NTV2-OFFSET-ACCUMULATES", "new/offset%d" % (n - 1), ok,
+              "the record offset is built from accumulating loop state" if ok else
+              ("the record offset handed to ntv2_subgrid depends on `%s`, which is overwritten in each round instead of "
+               "accumulated: the third and later sub-grid records are read from the wrong place" % ", ".join(bad) if bad else
+               "the record offset does not depend on the sizes of the earlier records at all"), cx.where(t["span"]))
+    cx.count("R-NTV2-OFFSET-ACCUMULATES", "decoder_calls", n)
+
+
+def _mentions_loopphi_of(t, h, l):
+    hit = []
+
+    def vis(y):
+        if y == ("loopphi", (h, l)):
+            hit.append(1)
+            return False
+        return not hit
+    mir.walk(t, vis)
+    return bool(hit)
+
+
+def _additive_self(t, h, l, depth=0):
+    """t = loopphi(h, l) + something (the carried value is an additive term of its own update)"""
+    t = mir.strip_refs(t)
+    if depth > 12:
+        return False
+    if t == ("loopphi", (h, l)):
+        return True
+    if t[0] == "bin" and t[1] in ("Add", "AddWithOverflow"):
+        return _additive_self(t[2], h, l, depth + 1) or _additive_self(t[3], h, l, depth + 1)
+    if t[0] == "bin" and t[1] in ("Sub", "SubWithOverflow"):
+        return _additive_self(t[2], h, l, depth + 1)
+    if t[0] == "proj" and mir.strip_refs(t[1])[0] == "bin":
+        return _additive_self(t[1], h, l, depth + 1)
+    if t[0] == "cast":
+        return _additive_self(t[2], h, l, depth + 1)
+    if t[0] == "phi":
+        return all(_additive_self(o, h, l, depth + 1) for o in t[2])
+    return False
